@@ -114,6 +114,9 @@ C03(hh, pre, e, post) ==
 StartsDial(e) == (e.e = "Poll" /\ e.res = "DialStart") \/ (e.e = "Bg" /\ e.d # 0)
 C04(hh, pre, e, post) ==
   (IF StartsDial(e) /\ Get(hh.hadIdle, e.r, FALSE) THEN <<V("C04:dial-despite-idle", e.r, e.d)>> ELSE <<>>)
+  \o (IF /\ hh.alive /\ e.e = "Poll" /\ e.res = "DialStart" /\ ReuseAsserted(hh) /\ e.r \in 1..NReqO(post)
+         /\ UsableIdle(hh, pre, post.req[e.r].o)
+      THEN <<V("C04:dial-while-usable-idle", e.r, e.d)>> ELSE <<>>)
   \o (IF /\ hh.alive /\ StartsDial(e) /\ e.r \in 1..NReqO(post) /\ post.req[e.r].h2
          /\ \E q \in hh.att \ {e.r} : q \in 1..NReqO(post) /\ SameOrigin(hh, post.req[q].o, post.req[e.r].o)
       THEN <<V("C04:h2-dial-while-attempt-in-flight", e.r, e.d)>> ELSE <<>>)
